@@ -1,4 +1,4 @@
-import AmVerif.Gen.Tables
+import AmVerif.Gen.TabLock
 import AmVerif.Model.World
 import AmVerif.Gen.Skel
 import AmVerif.Lemmas.Ledger
